@@ -436,6 +436,9 @@ func c19sameKey(r *kit.Run) {
 		{{"Set(a,1)", "Set(a,2)"}, {"Set(a,1)"}},
 		{{"Set(a,1)"}, {"Inc(a,+1)"}},
 	}
+	if r.Quick() {
+		progs = [][2][]string{progs[0], progs[2]} // the three-operation program is left to the thorough tier
+	}
 	ops := c19ops()
 	byName := map[string]c19op{}
 	for _, o := range ops {
